@@ -155,7 +155,11 @@ func (s *streamWriter) init() {
 	s.rawconn = rawconn
 	err = rawconn.SetDeadline(time.Now().Add(connIdleTimeout))
 	if err != nil {
+		// do not leave a registered, started writer without a stream behind:
+		// its first Invoke would dereference a nil stream.
 		slog.Error("failed to set deadline on raw connection", "err", err)
+		_ = rawconn.Close()
+		s.Shutdown()
 		return
 	}
 
